@@ -168,3 +168,6 @@ def t1(ctx):
     for c in CONTRACTS:
         verify_contract(ctx, SUITE, c, replay=replay.replay_any)
         crosscheck(ctx, SUITE, c, n=40 if ctx.tier == "quick" else 400, seed=ctx.seed)
+    # the traversal loop of Tree.encode_bipartitions (separate suite: heap theory B + allocation)
+    from contracts import C01enc
+    C01enc.t1(ctx)
